@@ -195,6 +195,9 @@ def _judge(ctx, mon, fn, target, lower, upper, precision, max_iter, out, err, n_
         # rounding jumps riding on a smooth trend: the largest increment between neighbouring samples minus the typical (median) increment
         inc = (samples[1:] - samples[:-1]).abs()
         noise = torch.maximum(noise, inc.amax(0) - inc.median(0).values)
+        # floor: a function assembled from terms as large as its values at the bracket ends cannot be resolved below eps times that scale
+        # (an early bisection step whose midpoint value is within that noise of the target may go the wrong way)
+        noise = torch.maximum(noise, 4 * e * torch.maximum(f_lo_b.abs(), f_up_b.abs()).to(noise.dtype))
         flat = levels == 1
         ftol = 8 * e * (fx.abs() + tg.abs()) + 16 * noise + float(torch.finfo(dtype).tiny)
         # a root r (fn(r) = target) exists within [x - step, x + step]: fn(x - step) <= target <= fn(x + step)
